@@ -6,6 +6,7 @@ with a contract use only the contract; helpers declared `inline` are executed at
 from __future__ import annotations
 
 import ast
+import enum
 import hashlib
 import importlib
 import os
@@ -684,6 +685,12 @@ class Engine(ExprMixin, CallMixin):
         if isinstance(target, (ast.Tuple, ast.List)):
             items = self.unpack(val, len(target.elts), node, st)
             for t, v in zip(target.elts, items):
+                if isinstance(t, ast.Name) and t.id in self.cur_locals:
+                    # `row, used = [], set()` for locals declared as list / set OBJECTS: each display creates a new object
+                    obj = self.new_container_object(self.shape(self.cur_locals[t.id]), v, node, st)
+                    if obj is not None:
+                        self.bind_target(t, obj, st, node)
+                        continue
                 if isinstance(t, ast.Name) and isinstance(v, VList) and v.elems is None and t.id in self.cur_locals:
                     # `xs, ys = [], []`: the untyped literal [] gets its shape from the contract's `locals` table
                     v = self.default_of(self.shape(self.cur_locals[t.id]))
@@ -912,6 +919,9 @@ class Engine(ExprMixin, CallMixin):
             shp = self.cur_locals.get(s.targets[0].id)
             if shp is not None:
                 shp = self.shape(shp)
+                obj = self.new_container_object(shp, val, s, st)
+                if obj is not None:
+                    return obj
                 if isinstance(val, VList) and val.elems is None:
                     return self.default_of(shp)
                 if isinstance(val, VEmptyDict) and shp[0] == "rec" and self.classes.get(shp[1], {}).get("dict_keys"):
@@ -932,6 +942,25 @@ class Engine(ExprMixin, CallMixin):
                         return VList(val.length, VChar(z3.K(z3.IntSort(), z3.IntVal(ord(probe.as_string())))), ("char",))
                     raise Unsupported("list of strings assigned to a local declared as a list of characters")
         return val
+
+    def new_container_object(self, shp, val, node, st):
+        """`x = []` / `x = set()` for a local the contract declares as a REFERENCE to a class that models a list object
+        ("boxed_list") / a set object ("boxed_set") with identity: the display creates a NEW object (own identity, taken from
+        the allocation frontier) whose content is empty - what Python does; aliases of x (elements of other lists, loop
+        variables) then denote the same object.  Any other list / set value for such a local is refused.  None: not such a local."""
+        if shp[0] != "ref" or self.spec:
+            return None
+        info = self.classes.get(shp[1], {})
+        fld = info.get("boxed_list") or info.get("boxed_set")
+        if not fld:
+            return None
+        if info.get("boxed_list") and isinstance(val, VList) and val.elems is None:
+            return self.construct(shp[1], [], {fld: self.default_of(self.field_shape(shp[1], fld))}, node, st)
+        if info.get("boxed_set") and isinstance(val, VEmptySet):
+            return self.construct(shp[1], [], {fld: self.default_of(self.field_shape(shp[1], fld))}, node, st)
+        if isinstance(val, (VList, VSet, VEmptySet)):
+            raise Unsupported(f"a list / set value other than an empty display assigned to a local declared as the object {shp[1]}")
+        return None
 
     def empty_of(self, shp, val):
         if shp[0] == "set":
@@ -1004,7 +1033,10 @@ class Engine(ExprMixin, CallMixin):
 
     def st_If(self, s, st):
         try:
-            c = self.truth(self.ev(s.test, st))
+            tv = self.ev(s.test, st)
+            if isinstance(tv, VRef) and self.classes.get(tv.cls, {}).get("boxed_list"):
+                tv = self.heap_read(st, tv, self.classes[tv.cls]["boxed_list"])  # `if xs:` on a list object: its current content is non-empty
+            c = self.truth(tv)
         except (Unsupported, z3.Z3Exception):
             # (Z3Exception: the operands' values have different sorts, e.g. `opt_str and a != b` - str or bool - so the VALUE of
             # the test has no common value tree either; same fallback)
@@ -1174,6 +1206,7 @@ class Engine(ExprMixin, CallMixin):
         # list objects with identity (class entries with "boxed_list"): an item store or a mutating method call on any
         # expression may go to such an object (its class is not known syntactically) -> all their content fields
         boxed = [info["boxed_list"] for info in self.classes.values() if info.get("boxed_list")]
+        boxed += [info["boxed_set"] for info in self.classes.values() if info.get("boxed_set")]  # set objects: likewise
 
         def tgt(t):
             if isinstance(t, ast.Name):
@@ -1357,6 +1390,23 @@ class Engine(ExprMixin, CallMixin):
             return n, (lambda k: VTuple([to_z3(k) + to_z3(start) if not (is_conc(start) and start == 0) else k, el(k)])), preds + p2, 0
         if isinstance(it, VJoined):
             return self.iter_plan(it.lst, s, st)
+        if isinstance(it, VZip) and it.parts and all(isinstance(p_, VList) and p_.elems is not None for p_ in it.parts):
+            # zip(L1, .., Lk) over lists: stops with the shortest one; step t yields the tuple (L1[t], .., Lk[t])
+            parts = list(it.parts)
+            n = to_z3(parts[0].length)
+            for p_ in parts[1:]:
+                n = z3.If(to_z3(p_.length) < n, to_z3(p_.length), n)
+            return n, (lambda k: VTuple([sel(p_.elems, to_z3(k)) for p_ in parts])), preds, 0
+        if isinstance(it, VConc) and isinstance(it.obj, type) and issubclass(it.obj, enum.Enum) and len(it.obj) >= 1:
+            # iterating an Enum class under a loop contract (otherwise the loop is unrolled): its members in definition order;
+            # member number k is the symbolic member whose name is the k-th name
+            members = list(it.obj)
+            def member(k, members=members, cls=it.obj):
+                nm = z3.StringVal(members[-1].name)
+                for pos in range(len(members) - 2, -1, -1):
+                    nm = z3.If(to_z3(k) == pos, z3.StringVal(members[pos].name), nm)
+                return VEnumSym(cls, nm, "name")
+            return len(members), member, preds, 0
         if is_leaf(it) and it.sort() == z3.StringSort():
             return z3.Length(it), (lambda k: z3.SubString(it, to_z3(k), 1)), preds, 0
         if isinstance(it, VDict) and it.order is not None:
@@ -1426,9 +1476,12 @@ class Engine(ExprMixin, CallMixin):
             raise Unsupported("loop modifies the list it iterates over")
         zn = to_z3(n)
         lo_t = to_z3(lo)
+        alloc_in = st.alloc  # allocation frontier at loop entry (after the iterable has been evaluated)
 
         def bind_head(state, kval):
             state.env[idx_name] = kval
+            if lc.get("frontier"):
+                state.ghost[lc["frontier"]] = alloc_in  # ghost name for the frontier at loop entry: objects the loop creates lie at or above it
             if direct:
                 state.env[s.target.id] = to_z3(kval) + lo_t if not (is_conc(lo) and lo == 0) else kval
             if lc.get("seq"):
@@ -1442,6 +1495,9 @@ class Engine(ExprMixin, CallMixin):
                     state.ghost[lc["elems"]] = it
                 elif isinstance(it, VDict) and it.order is not None:
                     state.ghost[lc["elems"]] = it.order
+                elif isinstance(it, VSet) and seq_of_this_loop is not None:
+                    # a set: the arbitrary duplicate-free enumeration (set_iter_plan) this loop runs over
+                    state.ghost[lc["elems"]] = seq_of_this_loop
                 else:
                     raise ContractError(f"loop #{k}: `elems` is only available for a list or an insertion-ordered dict")
 
